@@ -117,6 +117,7 @@ class Hist:
         self.pop: list[Slot] = []
         self.next_sid = 0
         self.fresh = 0
+        self.retired = []
         uuidsrc.source.reset(run_seed, self.cfg.get('uuid_order', 'asc'))
         for i, op in enumerate(run['ops']):
             self.opi = i
@@ -176,8 +177,25 @@ class Hist:
         return cands[rng.randrange(len(cands))]
 
     def fresh_label(self, rng, net: Net, extra=()):
+        # now and then a label that was in use earlier in this run and has been freed (rename / remove): histories
+        # re-use names, and anything derived from a label (helper gates, block names, caches) must cope
+        retired = getattr(self, 'retired', None)
+        if retired and rng.random() < 0.2:
+            cands = [l for l in retired if l not in net.gates and l not in extra]
+            if cands:
+                self.res.stats.probes.bump('freed-label-reused')
+                return cands[rng.randrange(len(cands))]
         self.fresh += 1
         return gennet.make_label(rng, self.cfg.get('alphabet', 'plain'), 100 + self.fresh, set(net.gates) | set(extra))
+
+    def retire(self, label):
+        r = getattr(self, 'retired', None)
+        if r is None:
+            r = self.retired = []
+        if label not in r and not label.startswith('__'):
+            r.append(label)
+            if len(r) > 12:
+                r.pop(0)
 
     def quarantine(self, slots, why):
         """Drop the real objects and rebuild them from the last good snapshot."""
@@ -442,6 +460,7 @@ class Hist:
         if not valid:
             self.violate('C19', 'remove', 'removed-gate-with-users', f'remove_gate({g}) returned although {users[g]} use it')
         self.ev['out'] = 'ok'
+        self.retire(g)
         now, _ = observe.snap(s.real)
         if g in now.gates or g in now.outputs:
             self.violate('C19', 'remove', 'label-still-present', f'{g} still in gates/outputs after remove_gate')
@@ -479,6 +498,7 @@ class Hist:
         pre = net.copy()
         pre_users = dict(s.users)
         self.call(lambda: s.real.rename_gate(old, new), [s], valid, f'#{s.sid}.rename_gate({old!r},{new!r})')
+        self.retire(old)
         now, nusers = observe.snap(s.real)
         ren = lambda x: new if x == old else x
         exp_gates = {ren(g): (t, tuple(ren(o) for o in ops)) for g, (t, ops) in pre.gates.items()}
@@ -1100,6 +1120,13 @@ class Hist:
         if not equivalent:
             self.res.stats.probes.bump('replace_subcircuit-nonequivalent')
         self.settle([s], also='C19' if equivalent else None)
+        if rng.random() < 0.5:
+            # the caller still owns the replacement circuit it passed in and keeps using it
+            try:
+                self.new_slot(sub_real)
+                self.res.stats.probes.bump('replacement-circuit-kept-in-population')
+            except Exception:
+                pass
 
     def synthesised_replacement(self, rng, net, leaves, outs, v_old, mask, taken):
         k = len(leaves)
